@@ -86,6 +86,12 @@ def run(ctx):
     def strings_job(i, n, pieces):
         f = os.path.join(ctx.work, "utf8-strings-%d.ndjson" % i)
         rc, out, err = ctx.run_harness(exe, ["strings", n + i, pieces], trace=f, timeout=600)
+        if rc in (-11, -6, -7, -8, -4):
+            # the validators / filters under test died on a signal (out-of-bounds walk, abort): deterministic single-threaded driver
+            rp = os.path.join(ctx.replays, "utf8-died-strings-%d.txt" % (i))
+            open(rp, "w").write("utf8_drv %s (VERIF_SEED=%s) died on signal %d\n%s\n" % (" ".join(map(str, ["strings", n + i, pieces])), ctx.seed, -rc, err[-3000:]))
+            ctx.violation("utf8-died-strings", "the validator / filter code died on signal %d while the driver fed it strings inputs" % -rc, rp)
+            return
         if rc != 0:
             ctx.undecided.append("utf8_drv strings failed rc=%s %s" % (rc, err[-800:]))
             return
@@ -98,6 +104,12 @@ def run(ctx):
     def codepages_job(a, b):
         f = os.path.join(ctx.work, "utf8-cp-%d.ndjson" % a)
         rc, out, err = ctx.run_harness(exe, ["codepages", a, b], trace=f, timeout=600)
+        if rc in (-11, -6, -7, -8, -4):
+            # the validators / filters under test died on a signal (out-of-bounds walk, abort): deterministic single-threaded driver
+            rp = os.path.join(ctx.replays, "utf8-died-codepages-%d.txt" % (a))
+            open(rp, "w").write("utf8_drv %s (VERIF_SEED=%s) died on signal %d\n%s\n" % (" ".join(map(str, ["codepages", a, b])), ctx.seed, -rc, err[-3000:]))
+            ctx.violation("utf8-died-codepages", "the validator / filter code died on signal %d while the driver fed it codepages inputs" % -rc, rp)
+            return
         if rc != 0:
             ctx.undecided.append("utf8_drv codepages failed rc=%s %s" % (rc, err[-800:]))
             return
